@@ -199,7 +199,11 @@ def o_ibe(s, ctx, v, out):
     out.keys.add(('ibe', tuple(s.faults()), rc, wrong, min(len(s.msg), 70)))
     if wrong:
         out.fault('wrong-identity-key')
-        if rc == '0' and s.out.get('pt') == s.msg and len(s.msg) > 4:
+        if s.changed('pub'):
+            # the sender encrypted under substituted system parameters (the trust root of the scheme, e.g. the
+            # identity as master public key, under which every mask is H(1)): nothing asserted
+            out.probe('system-parameters-substituted')
+        elif rc == '0' and s.out.get('pt') == s.msg and len(s.msg) > 4:
             v.bad('wrong-identity-decrypts', "another identity's private key recovered the plaintext")
     elif not changed:
         if rc != '0' or s.out.get('pt') != s.msg:
